@@ -99,7 +99,7 @@ class Desugar(ast.NodeTransformer):
         consts = {}
         for st in node.body:
             if isinstance(st, ast.Assign) and len(st.targets) == 1 and isinstance(st.targets[0], ast.Name) and isinstance(st.value, ast.Tuple) \
-                    and st.value.elts and all(isinstance(e, ast.Constant) for e in st.value.elts):
+                    and st.value.elts and all(isinstance(e, ast.Constant) or (isinstance(e, ast.Tuple) and e.elts and all(isinstance(y, ast.Constant) for y in e.elts)) for e in st.value.elts):
                 consts[st.targets[0].id] = st.value
         if consts and self._tree is not None:
             for n in ast.walk(self._tree):
@@ -121,13 +121,46 @@ class Desugar(ast.NodeTransformer):
 
     def _seq(self, e):
         """the elements of a statically known finite sequence expression, or None"""
-        if isinstance(e, (ast.Tuple, ast.List)) and e.elts and all(isinstance(x, (ast.Constant, ast.Name)) for x in e.elts):
+        atom = lambda x: isinstance(x, (ast.Constant, ast.Name)) or (isinstance(x, (ast.Tuple, ast.List)) and x.elts and all(isinstance(y, ast.Constant) for y in x.elts))
+        if isinstance(e, (ast.Tuple, ast.List)) and e.elts and all(atom(x) for x in e.elts):
             return list(e.elts)
         if isinstance(e, ast.Attribute) and isinstance(e.value, ast.Name) and self._cls:
             cname, consts = self._cls[-1]
             if e.value.id in ("self", "cls", cname) and e.attr in consts:
                 return list(consts[e.attr].elts)
         return None
+
+    def _comp_bindings(self, node):
+        """[{name: atom}] for a comprehension with one generator over a statically known finite sequence, no filter"""
+        if len(node.generators) != 1 or node.generators[0].ifs or getattr(node.generators[0], "is_async", 0):
+            return None
+        g = node.generators[0]
+        seq = self._seq(g.iter)
+        if seq is None:
+            return None
+        out = []
+        for x in seq:
+            if isinstance(g.target, ast.Name):
+                if isinstance(x, (ast.Tuple, ast.List)):
+                    return None
+                out.append({g.target.id: x})
+            elif isinstance(g.target, ast.Tuple) and all(isinstance(t, ast.Name) for t in g.target.elts) and isinstance(x, (ast.Tuple, ast.List)) and len(x.elts) == len(g.target.elts):
+                out.append({t.id: y for t, y in zip(g.target.elts, x.elts)})
+            else:
+                return None
+        return out
+
+    def visit_DictComp(self, node):
+        b = self._comp_bindings(node)
+        if b is None or not self._cls:
+            self.generic_visit(node)
+            return node
+        if not any(isinstance(g.iter, ast.Attribute) for g in node.generators):
+            self.generic_visit(node)
+            return node
+        self.count += 1
+        d = ast.Dict(keys=[_SubstMany(m).visit(copy.deepcopy(node.key)) for m in b], values=[_SubstMany(m).visit(copy.deepcopy(node.value)) for m in b])
+        return self.visit(ast.fix_missing_locations(ast.copy_location(d, node)))
 
     def _unroll_zip(self, node):
         """for a, b in zip(<finite tuple>, <finite tuple>): body  ->  the body once per pair (all elements atoms)"""
@@ -185,6 +218,17 @@ class Desugar(ast.NodeTransformer):
         if out is not None:
             self.count += 1
             return self._stmts(out)
+        # for k, v in X.items(): T[k] = v     ->     T.update(X)        (T a plain name: a dictionary being filled)
+        if (not node.orelse and len(node.body) == 1 and isinstance(node.target, ast.Tuple) and len(node.target.elts) == 2 and all(isinstance(e, ast.Name) for e in node.target.elts)
+                and isinstance(node.iter, ast.Call) and isinstance(node.iter.func, ast.Attribute) and node.iter.func.attr == "items" and not node.iter.args and not node.iter.keywords):
+            k_, v_ = node.target.elts[0].id, node.target.elts[1].id
+            st = node.body[0]
+            if (isinstance(st, ast.Assign) and len(st.targets) == 1 and isinstance(st.targets[0], ast.Subscript) and isinstance(st.targets[0].value, ast.Name)
+                    and isinstance(st.targets[0].slice, ast.Name) and st.targets[0].slice.id == k_ and isinstance(st.value, ast.Name) and st.value.id == v_
+                    and st.targets[0].value.id not in (k_, v_)):
+                self.count += 1
+                call = ast.Call(func=ast.Attribute(value=ast.Name(id=st.targets[0].value.id, ctx=ast.Load()), attr="update", ctx=ast.Load()), args=[self.visit(node.iter.func.value)], keywords=[])
+                return ast.fix_missing_locations(ast.copy_location(ast.Expr(value=ast.copy_location(call, node)), node))
         self.generic_visit(node)
         return node
 
